@@ -21,7 +21,50 @@ def _worker(job):
     import warnings
     warnings.filterwarnings("ignore")
     from vlib import c14_pass_run as RUN
-    return RUN.run_program(job)
+    try:
+        return RUN.run_program(job)
+    except (KeyboardInterrupt, SystemExit):
+        raise
+    except BaseException as e:  # noqa  (e.g. a stray alarm): the worker must survive and the job must produce a result
+        return {"name": job["entry"]["name"], "findings": [], "stats": {"worker_exception": f"{type(e).__name__}: {str(e)[:200]}"},
+                "snaps": [], "errors": [], "inputs": [], "ref_runtime": None, "live": [], "texts": {}, "lost": True}
+
+
+def _run_pool(ctx, jobs, n_workers):
+    """-> (results, names of lost jobs).  A worker killed from outside (OOM ...) loses its task in multiprocessing.Pool and
+    the result never arrives: results are collected by polling, and when nothing has arrived for `stall` seconds the
+    missing jobs are given up (statistics, not violations)."""
+    from vlib import c14_pass_harness as H
+    stall = (240 if ctx.tier == "quick" else 900) * H.load_scale()
+    pool = mp.get_context("fork").Pool(n_workers)
+    try:
+        pend = [(j, pool.apply_async(_worker, (j,))) for j in jobs]
+        pool.close()
+        results, last = [], time.time()
+        while pend:
+            still = []
+            for j, a in pend:
+                if a.ready():
+                    try:
+                        results.append(a.get(timeout=1))
+                    except BaseException as e:  # noqa  (result could not be transferred)
+                        if isinstance(e, (KeyboardInterrupt, SystemExit)):
+                            raise
+                        results.append({"name": j["entry"]["name"], "findings": [], "stats": {"worker_exception": type(e).__name__},
+                                        "snaps": [], "errors": [], "inputs": [], "ref_runtime": None, "live": [], "texts": {}, "lost": True})
+                    last = time.time()
+                else:
+                    still.append((j, a))
+            pend = still
+            if pend and time.time() - last > stall:
+                break
+            if pend:
+                time.sleep(0.2)
+        lost = [j["entry"]["name"] for j, _ in pend]
+    finally:
+        pool.terminate()
+        pool.join()
+    return results, lost
 
 
 def _jobs(ctx, entries):
@@ -59,12 +102,13 @@ def stage1(ctx):
     t0 = time.time()
     # biggest first for load balance
     jobs.sort(key=lambda j: -len(j["entry"]["src"]))
-    with mp.get_context("fork").Pool(WORKERS if ctx.tier == "quick" else 2 * WORKERS) as pool:
-        results = list(pool.imap_unordered(_worker, jobs, chunksize=1))
+    results, lost = _run_pool(ctx, jobs, WORKERS if ctx.tier == "quick" else 2 * WORKERS)
+    lost += [r["name"] for r in results if r.get("lost")]
+    results = [r for r in results if not r.get("lost")]
     results.sort(key=lambda r: r["name"])
     by_name = {e["name"]: e for e in entries}
     flagged = {c.__name__: f for c, f in V.PASS_FLAG_MAP.items()}
-    tot = {"programs": len(results), "calls": 0, "compiles": 0, "skip_compiles": 0, "skip_failed": 0, "skip_equal_ref": 0,
+    tot = {"programs": len(results), "lost_jobs": len(lost), "compile_timeout": 0, "compile_gave_up": 0, "calls": 0, "compiles": 0, "skip_compiles": 0, "skip_failed": 0, "skip_equal_ref": 0,
            "invocations": 0, "changed": 0, "wf_checks": 0, "roundtrip_ok": 0, "roundtrip_unsupported": 0, "ref_ok_calls": 0}
     snaps = {}
     latent = []
@@ -77,7 +121,7 @@ def stage1(ctx):
         snaps[r["name"]] = {"entry": e, "snaps": r["snaps"], "inputs": r.get("inputs", []), "ref_runtime": r.get("ref_runtime"),
                             "live": r.get("live", []), "suspects": suspects, "texts": r.get("texts", {})}
         s = r["stats"]
-        for k in ("calls", "compiles", "skip_compiles", "skip_failed", "skip_equal_ref", "invocations", "changed", "wf_checks", "ref_ok_calls"):
+        for k in ("compile_timeout", "compile_gave_up", "calls", "compiles", "skip_compiles", "skip_failed", "skip_equal_ref", "invocations", "changed", "wf_checks", "ref_ok_calls"):
             tot[k] += s.get(k, 0)
         tot["roundtrip_ok"] += s.get("roundtrip", {}).get("ok", 0)
         tot["roundtrip_unsupported"] += s.get("roundtrip", {}).get("unsupported", 0)
@@ -138,6 +182,7 @@ def stage1(ctx):
     ctx.corr["pass_stage1"] = tot
     ctx.extra["pass_latent_skip_disagreements"] = latent[:20]
     ctx.extra["pass_corpus"] = [r["name"] for r in results]
+    ctx.extra["pass_lost_jobs"] = sorted(lost)      # programs whose worker died or whose compile hit the wall-clock limit twice
     ctx.samples.append({"pass_differential": results[0]["name"] if results else None,
                         "stats": results[0]["stats"] if results else None})
     ctx.log(f"pass stage1: {tot} in {time.time() - t0:.0f}s")
